@@ -49,7 +49,9 @@ def db2bed(db, bed, _=None):
 
     logger.info("Converting gene annotation file %s to .bed format" % db)
     genedb = gffutils.FeatureDB(db, keep_order=True)
-    with open(bed, "w") as f:
+    # the BED may be in use by another run (it is shared via the per-user config): never expose a partially written file
+    tmp_bed = bed + "." + str(os.getpid()) + ".tmp"
+    with open(tmp_bed, "w") as f:
         for record in genedb.all_features(featuretype=('transcript', 'mRNA')):
             if "transcript_type" in record.attributes:
                 transcript_type = record["transcript_type"][0]
@@ -91,6 +93,7 @@ def db2bed(db, bed, _=None):
                    (record.seqid, transcript_start, transcript_end, transcript_name, record.strand,
                     thick_start, thick_end, get_color(transcript_type), len(exons_lens), exon_lengths, exon_starts)
             f.write(line)
+    os.replace(tmp_bed, bed)
     logger.info("Gene database BED written to " + bed)
 
 
